@@ -350,7 +350,7 @@ def gen_case(rnd, tier='quick'):
     if dynamics == 'synchronous':
         period = rnd.choice([1.0, 2.0, 0.5, 0.7, 1.3, 3.0])
     cycles = rnd.choice([1.5, 2.5, 4.0, 6.0])
-    while n * cycles > 48 and cycles > 1.5:
+    while n * cycles > 24 and cycles > 1.5:
         cycles -= 1.0
     maxtime = period * cycles
     if dynamics == 'synchronous':
@@ -375,7 +375,7 @@ class H(Harness):
     ANCHOR_FILES = ['epydemic/pulsecoupled.py', 'epydemic/networkdynamics.py']
     TIE_IMPORT = 'From Coq Require Import Floats.\nFrom EpyV Require Import Model.Kernel Model.Pulse Tie.C20.\nOpen Scope Q_scope.'
     CHECK_FN = 'EpyV.Tie.C20.check_fcase'
-    QUICK_N = 240
+    QUICK_N = 200
     THOROUGH_N = 2400
     CASE_TIMEOUT = 30
     ALLOWED_AXIOMS = set()
